@@ -170,7 +170,8 @@ def main():
         per_unit.append(dict(unit=uname, engine="verus", backend="z3", status=r["status"], obligations=n_obl,
                              solver_s=round(r["solver_s"], 3), wall_s=round(r.get("wall_s", 0), 2),
                              canary=r["canary"], bounded=None,
-                             **({"borrow_probes": r["borrow_probes"]} if r.get("borrow_probes") else {})))
+                             **({"borrow_probes": r["borrow_probes"]} if r.get("borrow_probes") else {}),
+                             **({"ownership_conditions": r["ownership_conditions"]} if r.get("ownership_conditions") and pid == "C13" else {})))
     # ---- Engine K -----------------------------------------------------------------------------
     kani_results, kani_note = krun.run(pid, a.tier) if kani_files else ([], None)
     bounded_checks = []
